@@ -187,6 +187,39 @@ def gen_spec(rng, idx, nonlinear=None, exact_init=False, big=False, with_extras=
                 eqs=eqs, init_eqs=init_eqs, outputs=outputs, nonlinear=bool(nonlinear), extras=extras)
 
 
+def add_sqrt_alg(spec, rng, state_driven):
+    """adds the algebraic `q1` with the mildly nonlinear equation
+
+        (1/nq) * q1*q1 = nq * (cu*u1 + c0 [+ cx * x_k / nom_k])
+
+    which has a real root only while its right-hand side is >= 0: an input value can drive a step out of
+    the solvable range.  `state_driven`: the right-hand side also contains a state (solvability then
+    depends on the solution of the step itself).  q1 is fed back into one state equation half of the
+    time.  Returns the data the harness needs to aim at a right-hand side: (cu, c0) in units of nq."""
+    nq = rng.choice(NOMS)
+    cu = dy(rng, 0.25, 2) * rng.choice([1.0, -1.0])
+    c0 = dy(rng, -1, 1)
+    terms = [(1.0 / nq, ["q1", "q1"]), (-cu * nq, ["u1"]), (-c0 * nq, [])]
+    sq = dict(cu=cu, c0=c0, nq=nq, state=None)
+    if state_driven:
+        st = rng.choice(spec["states"])
+        cx = dy(rng, 0.125, 0.5) * rng.choice([1.0, -1.0])
+        terms.append((-cx * nq / st["nom"], [st["n"]]))
+        sq.update(state=st["n"], cx=cx)
+    spec["algs"].append(dict(n="q1", nom=nq, start=nq))
+    spec["eqs"].append(dict(kind="alg", of="q1", terms=terms, form="implicit"))
+    if rng.random() < 0.5:
+        st = rng.choice(spec["states"])
+        for eq in spec["eqs"]:
+            if eq["kind"] == "der" and eq["of"] == st["n"]:
+                eq["terms"].append((dy(rng, -0.25, 0.25) * st["nom"] / nq, ["q1"]))
+    if rng.random() < 0.5:
+        spec["outputs"].append("q1")
+    spec["nonlinear"] = True
+    spec["sqrt"] = sq
+    return spec
+
+
 def is_affine(spec):
     """every term has at most one unknown factor (state/algebraic/alias/der); inputs, parameters
     and the time functions count as known"""
@@ -243,7 +276,8 @@ def write_mo(spec, folder):
             att.append("nominal=%s" % num(st["nom"]))
         L.append("  %sReal %s%s;" % ("output " if st["n"] in outs else "", st["n"], "(%s)" % ", ".join(att) if att else ""))
     for a in spec["algs"]:
-        att = ["nominal=%s" % num(a["nom"])] if a["nom"] != 1.0 else []
+        att = ["start=%s" % num(a["start"])] if "start" in a else []
+        att += ["nominal=%s" % num(a["nom"])] if a["nom"] != 1.0 else []
         L.append("  %sReal %s%s;" % ("output " if a["n"] in outs else "", a["n"], "(%s)" % ", ".join(att) if att else ""))
     for al in spec["aliases"]:
         L.append("  %sReal %s;" % ("output " if al["n"] in outs else "", al["n"]))
